@@ -4,7 +4,7 @@ template denotes.
 
 `denote` is the WXML reading of a template, written without any of the run-time bookkeeping: text renders its value as a
 string, an element carries its evaluated attributes and the denotation of its children, `<block>` contributes only its
-children, a `wx:if` chain contributes the body of the first branch whose condition holds (else the `wx:else` body, else
+children (an `<include>` the content of the included file, which sees no scope variable of the includer), a `wx:if` chain contributes the body of the first branch whose condition holds (else the `wx:else` body, else
 nothing), a `wx:for` (with or without `wx:key`) contributes its body once per (item, index) of the list value, with the two scope variables pushed.
 `flat` forgets the virtual nodes (`wx:if`, `wx:for`, `wx:for-item`, `<block>`) of the tree that `create`
 (`GE/Model/TagSem.lean`, the model compared with the real compiler + runtime by the `tagsem` stream) builds.
@@ -58,7 +58,7 @@ mutual
 def denote (s : Sem E V T) (D : V) (sc : List V) : Tpl E → FNodes V
   | .text e => .cons (.text (s.str (s.eval e D sc))) .nil
   | .elem tag attrs ch => .cons (.elem tag (evalAttrs s D sc attrs) (denoteL s D sc ch)) .nil
-  | .block ch => denoteL s D sc ch
+  | .block inc ch => denoteL s D (if inc then [] else sc) ch
   | .cond bs => denoteBr s D sc bs
   | .loop l body => concatItems (fun a x => denoteL s D (sc ++ [a, x]) body) (s.items (s.eval l D sc))
   | .loopK l _ body => concatItems (fun a x => denoteL s D (sc ++ [a, x]) body) (s.items (s.eval l D sc))
@@ -90,7 +90,7 @@ mutual
 theorem create_denotes (s : Sem E V T) (now : Nat) (D : V) : ∀ (t : Tpl E) (sc : List V), (create s now D sc t).flat = denote s D sc t
   | .text _, _ => rfl
   | .elem _ _ ch, sc => by simp only [create, Node.flat, denote, createL_denotes s now D ch sc]
-  | .block ch, sc => by simp only [create, Node.flat, denote, createL_denotes s now D ch sc]
+  | .block inc ch, sc => by simp only [create, Node.flat, denote, createL_denotes s now D ch (if inc then [] else sc)]
   | .cond bs, sc => by
     simp only [create, Node.flat, denote, branchKey]
     exact createBr_denotes s now D bs sc 1 (by omega)
